@@ -69,5 +69,5 @@ C12_EXTRA = ["def f(mutable № [int, 3] x) {}", "def f(readonly № [int,3] x) 
 
 
 def check(ctx):
-    return run_check(ctx, "C02", ["Oq3.Props.C02", "Oq3.Props.C01"], C02_MARKS,
+    return run_check(ctx, "C02", ["Oq3.Props.C02", "Oq3.Props.C02Full", "Oq3.Props.C02Final", "Oq3.Props.C01"], C02_MARKS,
                      "oracle on the real tree: text() == input, root = SOURCE_FILE spanning [0,len), every node's children tile it, token texts = input slices; model tree (ranges derived from leaves) compared with the real tree incl. all ranges", "§7 C02")
